@@ -130,6 +130,9 @@ Inductive act : Type :=
 | AObs (ty : str)            (* sizeof(ty) / new ty / ...: the name resolved in the current context is observed *)
 | ADecl (v ty : str)         (* `ty v;` a struct-typed local: its struct type name is resolved when declared *)
 | ACall (v m : str)          (* v.m(n - 1, ...) on a parameter, a local or self *)
+| AFn (g : str)              (* g(n - 1, ...): a plain function, or an instance of a generic function (its body is
+                                the substituted copy Model.instantiate builds): nothing is pushed or popped, the
+                                body runs under whatever context is on the stack *)
 | ARetIf (k : nat)           (* if (n <= k) { return ...; } *)
 | AFail.                     (* a run-time error (division by zero, ...): a C++ exception that is no ReturnException *)
 
@@ -245,6 +248,15 @@ Definition enter (P : program) (ic : icache) (rty m : str) : option (icache * op
     | None => None
     end.
 
+(* a function is carried as a block without parameters whose only method has this name *)
+Definition fn_method : str := s2l "()".
+
+Definition enter_fn (P : program) (g : str) : option method :=
+  match find_plain P g with
+  | Some b => lookup_method (b_methods b) fn_method
+  | None => None
+  end.
+
 Inductive flag : Type := FNorm | FRet | FErr.
 
 Definition flag_err (f : flag) : bool := match f with FErr => true | _ => false end.
@@ -270,6 +282,16 @@ Fixpoint run (fuel : nat) (P : program) (st : stack) (ic : icache) (env : list (
           if n <=? k then {| r_out := []; r_stack := st; r_cache := ic; r_flag := FRet |}
           else run f P st ic env n r
       | AFail :: _ => {| r_out := []; r_stack := st; r_cache := ic; r_flag := FErr |}
+      | AFn g :: r =>
+          match enter_fn P g with
+          | None => {| r_out := []; r_stack := st; r_cache := ic; r_flag := FErr |}
+          | Some md =>
+              let x := run f P st ic (m_params md) (pred n) (m_body md) in
+              if flag_err (r_flag x) then x
+              else
+                let y := run f P (r_stack x) (r_cache x) env n r in
+                {| r_out := r_out x ++ r_out y; r_stack := r_stack y; r_cache := r_cache y; r_flag := r_flag y |}
+          end
       | ACall v m :: r =>
           match lookup env v with
           | None => {| r_out := []; r_stack := st; r_cache := ic; r_flag := FErr |}
@@ -291,8 +313,8 @@ Fixpoint run (fuel : nat) (P : program) (st : stack) (ic : icache) (env : list (
 
 (* Spec: the same program where every method body runs under ONE fixed context, the one of the instance
    the method belongs to (the hand-specialised copy: the type parameters of a body are bound once, by the
-   instantiation, whoever calls it and whatever ran before).  A plain struct's method has no context of its
-   own and inherits `cur` (the model keeps the dynamic scoping of the code there). *)
+   instantiation, whoever calls it and whatever ran before).  A plain struct's method and a function have no
+   context of their own and inherit `cur` (the model keeps the dynamic scoping of the code there). *)
 Record mres : Type := { q_out : list str; q_cache : icache; q_flag : flag }.
 
 Fixpoint run_mono (fuel : nat) (P : program) (cur : option tctx) (ic : icache) (env : list (str * str)) (n : nat)
@@ -310,6 +332,16 @@ Fixpoint run_mono (fuel : nat) (P : program) (cur : option tctx) (ic : icache) (
           if n <=? k then {| q_out := []; q_cache := ic; q_flag := FRet |}
           else run_mono f P cur ic env n r
       | AFail :: _ => {| q_out := []; q_cache := ic; q_flag := FErr |}
+      | AFn g :: r =>
+          match enter_fn P g with
+          | None => {| q_out := []; q_cache := ic; q_flag := FErr |}
+          | Some md =>
+              let x := run_mono f P cur ic (m_params md) (pred n) (m_body md) in
+              if flag_err (q_flag x) then x
+              else
+                let y := run_mono f P cur (q_cache x) env n r in
+                {| q_out := q_out x ++ q_out y; q_cache := q_cache y; q_flag := q_flag y |}
+          end
       | ACall v m :: r =>
           match lookup env v with
           | None => {| q_out := []; q_cache := ic; q_flag := FErr |}
